@@ -24,7 +24,7 @@ def one(entry):
         open(p, 'w').write(s.replace(old, new, 1))
         tests = subprocess.run(['/venv/bin/python', '-m', 'pytest', '-q', '-x', '-p', 'no:cacheprovider'], cwd=d, capture_output=True, text=True)
         tests_ok = tests.returncode == 0
-        env = dict(os.environ, VERIF_REPO=d, VERIF_VERBOSE='0')
+        env = dict(os.environ, VERIF_REPO=d, VERIF_VERBOSE='0', VERIF_OUT=os.path.join(d, '_verif_out'))
         r = subprocess.run([os.path.join(ROOT, 'check'), pid], cwd=ROOT, env=env, capture_output=True, text=True, timeout=3600)
         viol = [l for l in r.stdout.split('\n') if l.startswith('VIOLATION')]
         named = sorted(set(l.split('replay=')[1].split()[0].split('/')[-1].rsplit('.json', 1)[0] for l in viol))[:6]
